@@ -1115,6 +1115,10 @@ class CodeBuilder:
                 depends_on=frozenset(depends_on))
         self.statements.append(stmt)
         self._seen_var_names |= read_variables | written_variables
+        # Loop counters are names in use, too, even if no expression of the
+        # statement mentions them.
+        self._seen_var_names |= {
+                ident for ident, _, _ in getattr(stmt, "loops", ())}
 
     def next_statement_id(self):
         return "%s_%d" % (self.name, len(self.statements))
